@@ -32,7 +32,7 @@ class C16(Prop):
     id = 'C16'
     level = 'fault_enumeration'
     quick_runs = 260
-    thorough_runs = 4000
+    thorough_runs = 1200
     chunk = 4
     rule = ('one case = one generated world (30 %: a world from the generator of C01/C02/C04-C09; there at most 24 fault points); its fault-free run has K primary solves; every solve index k is hit with a '
             'time-limit fault (always fires; convergence_error=False, no backup) and with seeded samples (quick: 2 per k, '
